@@ -74,9 +74,13 @@ def explore(prog, f, honest, tp, out):
 
 
 def args_of(case, ev):
+    from analysis import NotReplayable
     args = []
-    for sp in case.specs:
-        args += spec_args(sp, ev)
+    try:
+        for sp in case.specs:
+            args += spec_args(sp, ev)
+    except NotReplayable:
+        return None
     return args
 
 
@@ -255,20 +259,27 @@ def _c04(dump_path, fname, tier):
     out["max_slack"] = None
     for case in fa.cases:
         gin = None
+        res_in = 0  # gas held in GasReserve parameters is gas the caller handed over as well
         for t, v in zip(f["params"], case.vals):
             if fa.types.gid(t) == "GasBuiltin":
                 gin = v[1]
+            elif fa.types.gid(t) == "GasReserve":
+                res_in = res_in + zexpr(v[1])
         for pi, r in enumerate(case.results):
             if not r.ok:
                 continue
             p = r.path
             qn = f"{fname}:case{case.idx}:path{pi}"
             gout = None
+            res_out = 0
             for t, v in zip(f["rets"], r.outcome):
                 if fa.types.gid(t) == "GasBuiltin" and v[0] == "int":
                     gout = v[1]
+                elif fa.types.gid(t) == "GasReserve" and v[0] == "int":
+                    res_out = res_out + zexpr(v[1])
             lhs = trace_cost(prog, p)
-            spent = 0 if gin is None or gout is None else zexpr(gin) - zexpr(gout)
+            spent = 0 if gin is None or gout is None else \
+                (zexpr(gin) + res_in) - (zexpr(gout) + res_out)
             rhs = fcost + spent + 100
             out["queries"] += 1
             if is_int(rhs) or isinstance(rhs, int):
